@@ -142,6 +142,15 @@ CHECKS = {
         'note': _NOTE + ' Chunk steps are internal (silent); only the call and its result are observed.',
         'technique': 'TLA+ spec of the chunk loop + TLC (safety, action property, liveness) exhaustive; every behaviour replayed on real packages',
     },
+    'C17': {
+        'text': 'Plot.tla: the collection of curves plot() returns -- per display mode the apertures shown (interp: each filter\'s own; largest; smallest+largest; all distinct filter apertures in increasing order), drawn for the selected fits n..1 so that the best fit is last; '
+                'TLC checks CurveCount, BestLast, EveryFitShown and PassesThroughPred for 1..5 selected fits x 4 modes x 5 filter-aperture patterns x single/multi-aperture package x object/file input.  EVERY configuration is replayed: real cube package, Fitter with wavelength filters '
+                'at tabulated wavelengths, Fitter.fit, plot(..., output_dir=None, sed_type=..., select_format=("N", n)) on the object or on a fit file; number and order of the segments of the returned LineCollection, and each curve at each fitted wavelength whose filter aperture it is shown for '
+                'against the predicted flux stored with the fit (mJy -> nu F_nu), within 2e-3 dex.',
+        'ref': 'DESIGN.md section 6 C17',
+        'note': _NOTE + " Nothing is claimed about what reaches the canvas; the unimplemented sed_type 'smallest' is outside the property.",
+        'technique': 'TLA+ spec of the curve layout + TLC exhaustive; every configuration replayed through Fitter.fit and plot() on real cube packages',
+    },
     'C18': {
         'text': 'filter_output is the Split action of FitSession: a verdict per record from the best chi^2 (chi=) or best chi^2 per fitted point (cpd=) against the threshold, under Select\'s abstract-float rules.  '
                 'Thresholds are generated tightly around every pool source\'s own criterion value.  Replay through the real function on file and list inputs (explicit and automatic output names): each source in exactly one '
